@@ -21,7 +21,7 @@ RULE = ("Histories (Hypothesis rule-based state machine, JSON-replayable): objec
 ASSUMPTIONS = ['copy(), flatten()/ravel(), T and fxp_like are documented shallow copies and are outside the statement', 'core-domain formats; arrays of at most 9 elements']
 EXHAUSTIVE = False    # the whole quantifier is not enumerated; complete sub-domains are listed in EXHAUSTIVE_SUBDOMAINS
 EXHAUSTIVE_SUBDOMAINS = {'quick': ['invalid values for every validated Config option x 4 setting routes'], 'thorough': ['same']}
-REQUIRED_CLASSES = {'history:mutation-after-2-derivations': 100, 'derive:like_kw': 50, 'derive:arith': 100, 'derive:numpy': 50, 'derive:like': 50, 'mutate:config': 100, 'mutate:readback-array': 100,
+REQUIRED_CLASSES = {'history:mutation-after-2-derivations': 100, 'derive:like_kw': 50, 'derive:arith': 100, 'derive:numpy': 50, 'derive:like': 50, 'derive:flatten': 15, 'derive:T': 15, 'derive:fxp_like': 20, 'mutate:config': 100, 'mutate:readback-array': 100,
                     'mutate:flag': 100, 'view-write': 200, 'view-write:col': 15, 'view-write:step': 15, 'view-write:rev': 15, 'container:strings': 300, 'container:strings-value-mode': 150, 'config-invalid': 40}
 
 
@@ -139,6 +139,14 @@ class World:
         elif route == 'resize':
             z = x.deepcopy()
             z.resize(not fx[0], min(fx[1] + 3, 52), fx[2] + 1)
+        elif route in ('flatten', 'ravel', 'T'):
+            # "a copy of the Fxp with its values collapsed into one dimension" / the transposed object: new objects, like np.ravel(x) and np.transpose(x)
+            if C.shape_of(x) == ():
+                return
+            z = x.flatten() if route == 'flatten' else x.ravel() if route == 'ravel' else x.T
+        elif route == 'fxp_like':
+            # the function form of like=: "New Fxp object like x"
+            z = fxpmath.fxp_like(x, 0.0 if C.shape_of(x) == () else np.zeros(C.shape_of(x)))
         elif route in ('add', 'sub', 'mul', 'truediv', 'floordiv', 'mod'):
             if y is None:
                 return
@@ -491,7 +499,7 @@ def replay(ctx, case):
 RELONE = st.tuples(st.sampled_from(['hi', 'lo', 'zero', 'mid', 'far+', 'far-']), st.integers(-6, 6)).map(list)
 IDX = st.integers(0, 7)
 DERIVE_ROUTES = ['ctor_sizes', 'np_add', 'np_multiply', 'np_subtract', 'like_kw', 'template', 'from_fxp', 'deepcopy', 'like', 'resize', 'add', 'sub', 'mul', 'truediv', 'floordiv', 'mod', 'const', 'neg', 'abs', 'pos',
-                 'inv', 'and', 'or', 'xor', 'lshift', 'rshift', 'sum', 'cumsum', 'max', 'min', 'sort', 'transpose', 'clip', 'diagonal', 'trace', 'like', 'like_kw']
+                 'inv', 'and', 'or', 'xor', 'lshift', 'rshift', 'sum', 'cumsum', 'max', 'min', 'sort', 'transpose', 'clip', 'diagonal', 'trace', 'like', 'like_kw', 'flatten', 'ravel', 'T', 'fxp_like']
 CFG_MUT = [['rounding', 'ceil'], ['rounding', 'around'], ['overflow', 'wrap'], ['overflow', 'saturate'], ['shifting', 'keep'], ['op_sizing', 'same'],
            ['op_method', 'repr'], ['const_op_sizing', 'largest'], ['dtype_notation', 'Q'], ['op_input_size', 'best'], ['array_op_method', 'raw']]
 
